@@ -9,6 +9,29 @@ use crate::term::*;
 pub struct RSt {
     pub sub: Sub,
     pub next: usize,
+    /// pending disequalities (pairs of terms that must not become equal)
+    pub neqs: Vec<(T, T)>,
+}
+
+impl RSt {
+    /// no pending disequality is violated (its two sides have become identical); disequalities that can no longer be
+    /// violated are dropped
+    fn settle(mut self) -> Option<RSt> {
+        let mut keep = vec![];
+        for (a, b) in std::mem::take(&mut self.neqs) {
+            let mut s2 = self.sub.clone();
+            let before = s2.len();
+            if !runify(&mut s2, &a, &b) {
+                continue; // can never be equal: satisfied for good
+            }
+            if s2.len() == before {
+                return None; // equal already: violated
+            }
+            keep.push((a, b));
+        }
+        self.neqs = keep;
+        Some(self)
+    }
 }
 
 /// Reference semantics: the list of answers in left-to-right depth-first order.
@@ -30,10 +53,15 @@ pub fn reval(g: &PG, st: &RSt, depth: usize, overflow: &mut bool) -> Vec<RSt> {
         PG::Eq(a, b) => {
             let mut s = st.clone();
             if runify(&mut s.sub, a, b) {
-                vec![s]
+                s.settle().into_iter().collect()
             } else {
                 vec![]
             }
+        }
+        PG::Neq(a, b) => {
+            let mut s = st.clone();
+            s.neqs.push((a.clone(), b.clone()));
+            s.settle().into_iter().collect()
         }
         PG::Succ => vec![st.clone()],
         PG::Fail => vec![],
@@ -66,6 +94,10 @@ pub fn reval(g: &PG, st: &RSt, depth: usize, overflow: &mut bool) -> Vec<RSt> {
             vec![]
         }
         PG::Onceo(gs) => conj(gs, st, overflow).into_iter().take(1).collect(),
+        PG::OnceoC(cs) => {
+            let all: Vec<PG> = cs.iter().flat_map(|c| c.iter().cloned()).collect();
+            conj(&all, st, overflow).into_iter().take(1).collect()
+        }
         PG::Anyo(g) => {
             if depth == 0 {
                 *overflow = true;
@@ -120,7 +152,7 @@ pub fn reval(g: &PG, st: &RSt, depth: usize, overflow: &mut bool) -> Vec<RSt> {
                 }
                 other => panic!("reference interpreter: relation {} not supported", other),
             };
-            let s = RSt { sub: st.sub.clone(), next: n + 5 };
+            let s = RSt { sub: st.sub.clone(), next: n + 5, neqs: st.neqs.clone() };
             reval(&body, &s, depth - 1, overflow)
         }
         other => panic!("reference interpreter: goal {:?} not supported", other),
@@ -130,7 +162,7 @@ pub fn reval(g: &PG, st: &RSt, depth: usize, overflow: &mut bool) -> Vec<RSt> {
 /// the reference answers of a program as canonical answer lines (terms only)
 pub fn ref_answers(p: &Prog, depth: usize) -> Option<Vec<String>> {
     let mut overflow = false;
-    let st = RSt { sub: Sub::new(), next: p.nvars + 1 };
+    let st = RSt { sub: Sub::new(), next: p.nvars + 1, neqs: vec![] };
     let res = reval(&PG::Conj(p.body.clone()), &st, depth, &mut overflow);
     if overflow {
         return None;
@@ -159,7 +191,7 @@ pub fn ref_member(p: &Prog, a: &Ans, depth: usize) -> bool {
     }
     body.extend(p.body.iter().cloned());
     let mut overflow = false;
-    let st = RSt { sub: Sub::new(), next: p.nvars + 1 };
+    let st = RSt { sub: Sub::new(), next: p.nvars + 1, neqs: vec![] };
     !reval(&PG::Conj(body), &st, depth, &mut overflow).is_empty()
 }
 
@@ -236,8 +268,15 @@ impl SearchGen {
                 }
             }
             10 if self.committed && !self.dfs_safe => {
-                let m = 1 + r.below(2);
-                PG::Onceo((0..m).map(|_| self.goal(r, depth - 1)).collect())
+                // half of them with several comma-separated entries (`onceo { a, b }`: the operator conjoins the ENTRIES with
+                // `Conj::from_conjunctions` — seeded change C08-k)
+                if r.chance(1, 2) {
+                    let k = 2 + r.below(2);
+                    PG::OnceoC((0..k).map(|_| (0..1 + r.below(2)).map(|_| self.goal(r, depth - 1)).collect()).collect())
+                } else {
+                    let m = 1 + r.below(2);
+                    PG::Onceo((0..m).map(|_| self.goal(r, depth - 1)).collect())
+                }
             }
             _ => self.leaf(r),
         }
